@@ -451,6 +451,14 @@ FUNC_MODELS = {
 }
 FUNC_MODELS.update(_fnmatch_models())
 
+
+def m_map(fn, *iterables):
+    """map(): the mapped function is dispatched through call(), so map(str, ...) / map(int, ...) reach their models."""
+    return iter([call(fn, *xs) for xs in zip(*iterables)])
+
+
+FUNC_MODELS[builtins.map] = m_map
+
 # C-level callables that only use the generic object protocols (iteration,
 # comparison, arithmetic, truth) and therefore work natively on proxies.
 _NATIVE_OK = {
